@@ -7,7 +7,7 @@ CONSTANTS
   BFKinds = {"bool", "int", "uint", "long", "ulong"}
   EnumOps = {"eu", "es", "eul", "el", "efs", "efuc"}
   EnumBFs = {"eu"}
-  Devs = {"CondSameTypeNoConversion", "CompositeIsFirst", "UacKeepsWideEnum", "SizeofSeesBitfield", "ConvertKeepsCompatible"}
+  Devs = {"CondSameTypeNoConversion", "CompositeIsFirst", "UacKeepsWideEnum", "SizeofSeesBitfield", "ConvertKeepsCompatible", "ArrayQualOnArrayType", "DerefDecayedArrayDropsQual"}
   Forms = {"bin", "cond", "un", "lit", "flt", "chr"}
   Emit = TRUE
 INVARIANTS Inv_Refines Inv_DevsExplain Inv_NoFatal Inv_UacSymmetric Inv_UacHoldsBoth Inv_PromoteIdempotent Inv_Emit
